@@ -938,6 +938,82 @@ char *__wrap_setlocale(int cat, const char *loc) { if (loc) libc_probe(7); else 
 }
 
 // ------------------------------------------------------------------ handlers
+// ---- file-system / descriptor calls made by library code: yield points, conflict points (descriptor numbers and
+// path names are process-wide), and a fault seam: the k-th such call of an op fails with the planned errno.
+// A failed call has no effect (close / fclose are carried out and then reported as failed, as the kernel does).
+static inline void note_conflict_point(Task *t) {
+    if (t && t->in_op && g_sim.cfg.rec_edges) {
+        OpResult &r = t->res[t->cur_op];
+        if (r.n_edge < 24 && (r.n_edge == 0 || r.edge_ev[r.n_edge - 1] != t->ev + 1)) r.edge_ev[r.n_edge++] = t->ev + 1;
+    }
+}
+void sim_conflict_point() { note_conflict_point(t_self); on_event(); }
+static bool sys_call_fails(int *err) {
+    Task *t = t_self;
+    if (!t || !t->op || !t->in_op) return false;
+    note_conflict_point(t);
+    on_event();
+    uint32_t k = ++t->sys_count;
+    const Fault &f = t->op->f;
+    if (f.sys_k && (int)k == f.sys_k) {
+        t->res[t->cur_op].sys_faults++;
+        sim_log(LOG_FAULT, 20, k);
+        *err = f.sys_errno ? f.sys_errno : EIO;
+        return true;
+    }
+    return false;
+}
+#define SYS_FAIL(retval) do { int e_; if (sys_call_fails(&e_)) { errno = e_; return retval; } } while (0)
+extern "C" {
+FILE *__wrap_fopen(const char *p, const char *m) { SYS_FAIL(nullptr); FILE *r = fopen(p, m); on_event(); return r; }
+FILE *__wrap_fopen64(const char *p, const char *m) { SYS_FAIL(nullptr); FILE *r = fopen(p, m); on_event(); return r; }
+FILE *__wrap_fdopen(int fd, const char *m) { SYS_FAIL(nullptr); FILE *r = fdopen(fd, m); on_event(); return r; }
+FILE *__wrap_tmpfile(void) { SYS_FAIL(nullptr); FILE *r = tmpfile(); on_event(); return r; }
+FILE *__wrap_tmpfile64(void) { SYS_FAIL(nullptr); FILE *r = tmpfile(); on_event(); return r; }
+FILE *__wrap_freopen(const char *p, const char *m, FILE *f) { sim_conflict_point(); FILE *r = freopen(p, m, f); on_event(); return r; }
+int __wrap_fclose(FILE *f) { int e_ = 0; bool fail = sys_call_fails(&e_); int r = fclose(f); on_event(); if (fail) { errno = e_; return EOF; } return r; }
+int __wrap_close(int fd) { int e_ = 0; bool fail = sys_call_fails(&e_); int r = close(fd); on_event(); if (fail) { errno = e_; return -1; } return r; }
+int __wrap_open(const char *p, int flags, ...) {
+    mode_t m = 0;
+    if (flags & (O_CREAT | O_TMPFILE)) { va_list ap; va_start(ap, flags); m = va_arg(ap, mode_t); va_end(ap); }
+    SYS_FAIL(-1);
+    int r = open(p, flags, m);
+    on_event();
+    return r;
+}
+int __wrap_open64(const char *p, int flags, ...) {
+    mode_t m = 0;
+    if (flags & (O_CREAT | O_TMPFILE)) { va_list ap; va_start(ap, flags); m = va_arg(ap, mode_t); va_end(ap); }
+    SYS_FAIL(-1);
+    int r = open(p, flags, m);
+    on_event();
+    return r;
+}
+int __wrap_creat(const char *p, mode_t m) { SYS_FAIL(-1); int r = creat(p, m); on_event(); return r; }
+int __wrap_unlink(const char *p) { SYS_FAIL(-1); int r = unlink(p); on_event(); return r; }
+int __wrap_remove(const char *p) { SYS_FAIL(-1); int r = remove(p); on_event(); return r; }
+int __wrap_rename(const char *a, const char *b) { SYS_FAIL(-1); int r = rename(a, b); on_event(); return r; }
+int __wrap_mkstemp(char *tpl) { SYS_FAIL(-1); int r = mkstemp(tpl); on_event(); return r; }
+int __wrap_mkstemp64(char *tpl) { SYS_FAIL(-1); int r = mkstemp(tpl); on_event(); return r; }
+int __wrap_mkostemp(char *tpl, int fl) { SYS_FAIL(-1); int r = mkostemp(tpl, fl); on_event(); return r; }
+int __wrap_dup(int fd) { SYS_FAIL(-1); int r = dup(fd); on_event(); return r; }
+int __wrap_dup2(int a, int b) { SYS_FAIL(-1); int r = dup2(a, b); on_event(); return r; }
+int __wrap_fcntl(int fd, int cmd, ...) {
+    va_list ap;
+    va_start(ap, cmd);
+    long arg = va_arg(ap, long);
+    va_end(ap);
+    SYS_FAIL(-1);
+    int r = fcntl(fd, cmd, arg);
+    on_event();
+    return r;
+}
+int __wrap_access(const char *p, int m) { SYS_FAIL(-1); int r = access(p, m); on_event(); return r; }
+int __wrap_stat(const char *p, struct stat *st) { SYS_FAIL(-1); int r = stat(p, st); on_event(); return r; }
+int __wrap_fstat(int fd, struct stat *st) { SYS_FAIL(-1); int r = fstat(fd, st); on_event(); return r; }
+int __wrap_lstat(const char *p, struct stat *st) { SYS_FAIL(-1); int r = lstat(p, st); on_event(); return r; }
+}
+
 void (*g_handler_hook)(int hid, int code) = nullptr;
 void (*g_handler_after)(int hid) = nullptr;
 struct HandlerCall {
@@ -1147,6 +1223,7 @@ static void run_one_op(Task &t, int i, const Op &op) {
     sim_log(LOG_INVOKE, ((uint64_t)t.id << 32) | (uint32_t)i, (uint64_t)op.fn);
     t.op = &op;
     t.alloc_count = 0;
+    t.sys_count = 0;
     t.wr_bytes = 0;
     t.rd_pos = 0;
     if (!null_op) {
